@@ -20,7 +20,8 @@
 (* recorded executions.                                                      *)
 (* Defects: "max_allowed" (min -> max), "lifo_wrong_end", "no_deduct",       *)
 (* "ignore_suspended", "create_and_delete", "overfill" - model mutants;      *)
-(* "quiet_suspend" - mutant of the published bookkeeping (extension below).  *)
+(* "no_default_policy"; "quiet_suspend" - mutant of the published            *)
+(* bookkeeping (extension below).                                            *)
 EXTENDS AppMonOps, TLC
 
 CONSTANTS AppSeq,      \* sequence of application names
@@ -45,12 +46,16 @@ More == st.steps < MaxSteps
 
 (* _monitor_data_watch: a (re)configured monitor starts with a full bucket;  *)
 (* update_appmonitor writes only when the content changes                    *)
+(* p = "": no policy given - masterapi.update_appmonitor then leaves the field   *)
+(* alone: a new monitor's node has NO policy (the default, fifo, must apply), an *)
+(* existing one keeps its policy                                                *)
 Configure(a, c, p) ==
   /\ More /\ a \in Apps /\ c \in Counts /\ p \in Policies
-  /\ ~(a \in DOMAIN st.mon /\ st.mon[a].count = c /\ st.mon[a].policy = p)
-  /\ st' = Step([st EXCEPT !.mon = Put(@, a, [count |-> c, avail |-> CapOf(c, TOK),
-                                             last |-> st.now, policy |-> p,
-                                             spent |-> 0, since |-> st.now])])
+  /\ LET q == IF p = "" /\ a \in DOMAIN st.mon THEN st.mon[a].policy ELSE p IN
+     /\ ~(a \in DOMAIN st.mon /\ st.mon[a].count = c /\ st.mon[a].policy = q)
+     /\ st' = Step([st EXCEPT !.mon = Put(@, a, [count |-> c, avail |-> CapOf(c, TOK),
+                                                last |-> st.now, policy |-> q,
+                                                spent |-> 0, since |-> st.now])])
 
 DeleteMonitor(a) ==
   /\ More /\ a \in DOMAIN st.mon
@@ -103,9 +108,13 @@ EvalApp(a, o) ==
              ELSE 0
       mk == IF alw > 0
             THEN <<[app |-> a, op |-> "create", n |-> alw, insts |-> {}, o |-> o]>> ELSE <<>>
-      del == act /\ (m.count < cur \/ ("create_and_delete" \in Defects /\ alw > 0 /\ cur > 0))
       pol == IF "lifo_wrong_end" \in Defects
              THEN (IF m.policy = "lifo" THEN "fifo" ELSE "lifo") ELSE m.policy
+      (* mutant "no_default_policy": a monitor without a policy field is treated as *)
+      (* having an invalid policy - no delete call                                  *)
+      valid == ~("no_default_policy" \in Defects /\ m.policy = "")
+      del == act /\ valid
+             /\ (m.count < cur \/ ("create_and_delete" \in Defects /\ alw > 0 /\ cur > 0))
       gone == IF m.count < cur THEN SurplusSet(st.view[a], cur - m.count, pol) ELSE st.view[a]
       rm == IF del
             THEN <<[app |-> a, op |-> "delete", n |-> 0, insts |-> gone,
